@@ -15,7 +15,7 @@ from mc import sched, world
 from mc.report import CheckBroken, add_sample, add_violation, count, new_part
 
 LEVEL = "model_checking"
-RULE = ("for each of 12 scenarios (2-3 real threads, <= 4 sends/receives each) every thread schedule with <= B preemptions "
+RULE = ("for each of 14 scenarios (2-3 real threads, <= 5 sends/receives each; plain, structured and silent entry points, blocking and non-blocking, messages including the empty string) every thread schedule with <= B preemptions "
         "(B = 2 quick, 3 thorough) is executed once on the real code; scheduling point = every line event in socket_hub.py, "
         "thread_socket/socket.py, broadcast_channel.py + blocking lock acquire + hub sleep + one failed polling round; a "
         "switch at a blocking point is free; preemptions are only placed directly before a line that touches shared hub "
@@ -76,8 +76,17 @@ SCENARIOS: Dict[str, List[Tuple[str, List[List[Any]]]]] = {
             ("B", [["tick"], ["tick"], ["connect", "b", "B", "A", 0, P], ["recv", "b"]])],
     "S9b": [("A", [["tick"], ["tick"], ["connect", "a", "A", "B", 0, P], ["send", "a", "m1"], ["close", "a"]]),
             ("B", [["connect", "b", "B", "A", 0, P], ["recv", "b"]])],
+    # message values that are easy to mistake for "nothing": the empty string, "0", a blank
+    "S10": [("A", [["connect", "a", "A", "B", 0, P], ["send", "a", ""], ["send", "a", "0"], ["send", "a", " "]]),
+            ("B", [["connect", "b", "B", "A", 0, P], ["nb", "b"], ["recv", "b"], ["drain_to", "b", 3], ["nb", "b"]])],
+    # the less used entry points share the hub with send/recv: structured and silent, blocking and not
+    # (one socket per kind: a structured message is a JSON string on the wire, the two kinds do not mix on one channel)
+    "S11": [("A", [["connect", "a0", "A", "B", 0, P], ["connect", "a1", "A", "B", 1, P], ["sends", "a0", "h1", "p1"],
+                   ["sendq", "a1", "q1"], ["sends", "a0", "h2", ""], ["sendq", "a1", ""]]),
+            ("B", [["connect", "b0", "B", "A", 0, P], ["connect", "b1", "B", "A", 1, P], ["nbs", "b0"], ["nbq", "b1"],
+                   ["drains_to", "b0", 2], ["drainq_to", "b1", 2], ["nbs", "b0"]])],
 }
-ORDER = ["S1", "S2", "S3a", "S3b", "S4", "S5", "S6a", "S6b", "S7", "S8", "S9a", "S9b"]
+ORDER = ["S1", "S2", "S3a", "S3b", "S4", "S5", "S6a", "S6b", "S7", "S8", "S9a", "S9b", "S10", "S11"]
 
 
 # ----------------------------------------------------------------------------- running one schedule of one scenario
@@ -128,6 +137,13 @@ class Env:
                 log.append(("send-refused", op[1], f"{op[2]}|{op[3]}", t0, ex.now()))
             else:
                 log.append(("send", op[1], f"{op[2]}|{op[3]}", t0, ex.now()))
+        elif k == "sendq":
+            try:
+                self.socks[op[1]].send_silent(op[2])
+            except ConnectionError:
+                log.append(("send-refused", op[1], op[2], t0, ex.now()))
+            else:
+                log.append(("send", op[1], op[2], t0, ex.now()))
         elif k == "bsend":
             try:
                 self.socks[op[1]].send(op[2])
@@ -157,6 +173,20 @@ class Env:
             else:
                 self.got[op[1]] = self.got.get(op[1], 0) + 1
                 log.append(("nb", op[1], m, t0, ex.now(), t.nsleeps - s0, ""))
+        elif k in ("nbs", "nbq"):
+            try:
+                m = self.socks[op[1]].recv_structured(block=False) if k == "nbs" else self.socks[op[1]].recv_silent(block=False)
+            except RuntimeError as exc:
+                log.append(("nb", op[1], None, t0, ex.now(), t.nsleeps - s0, str(exc)[:60]))
+            else:
+                self.got[op[1]] = self.got.get(op[1], 0) + 1
+                log.append(("nb", op[1], f"{m.header}|{m.payload}" if hasattr(m, "header") else m, t0, ex.now(), t.nsleeps - s0, ""))
+        elif k in ("drainq_to", "drains_to"):
+            while self.got.get(op[1], 0) < op[2]:
+                t1 = ex.now()
+                m = self.socks[op[1]].recv_silent() if k == "drainq_to" else self.socks[op[1]].recv_structured()
+                self.got[op[1]] = self.got.get(op[1], 0) + 1
+                log.append(("recv", op[1], f"{m.header}|{m.payload}" if hasattr(m, "header") else m, t1, ex.now()))
         elif k == "brecv":
             r, m = self.socks[op[1]].recv()
             log.append(("brecv", op[1], r, m, t0, ex.now()))
